@@ -40,7 +40,7 @@ def run(ck):
         for b in f.blocks.values():
             t = b.term
             if t and t.get("k") == "if":
-                refs = [strip_tmpl(r) for r in (t.get("refs") or [])]
+                refs = [strip_tmpl(r) for r in lib.term_refs(f, t)]
                 if any(r.endswith("ArrayStreamBuf::bytes") for r in refs) and any(r.endswith("ArrayStreamBuf::maxSize") for r in refs) and ("v:" + f.params[1]["name"]) in refs:
                     # the amount already held is bytes.size() — the number of bytes fed so far — not its capacity or anything else
                     calls = {r[2:] for r in refs if r.startswith("c:")}
@@ -241,7 +241,7 @@ def run(ck):
             if grows:
                 continue
             nsh += 1
-            ok_ = fn_.base.rsplit("::", 1)[1] == "reset"
+            ok_ = fn_.base.rsplit("::", 1)[1] == "reset" or lib.only_reached_from(prog, fn_, {fn_.base.rsplit("::", 1)[0] + "::reset", fn_.base.rsplit("::", 1)[0] + "::ArrayStreamBuf"})
             ck.ob("C14-R1", "ArrayStreamBuf::%s/%s-on-the-measured-buffer" % (fn_.base.rsplit("::", 1)[1], how.replace("call:", "")), ok_, ev.loc, fn_,
                   "the buffer is emptied by reset() only" if ok_ else
                   "%s removes bytes from the buffer between two feeds of the same message: the size limit, measured on bytes.size(), then "
